@@ -17,13 +17,15 @@ import (
 // cache is compared with a slice model (return value, full recency order, map
 // index) and the property's own clauses are asserted independently of the model.
 
+var c15OpNames = []string{"setClean", "setDirty", "setSame", "get", "markDirty", "markClean", "markDirtyOlderLSN", "markDirtySameLSN"}
+
 type c15Op struct {
-	kind int // 0 set fresh clean, 1 set fresh dirty, 2 set current node, 3 get, 4 markDirty, 5 markClean
+	kind int // 0 set fresh clean, 1 set fresh dirty, 2 set current node, 3 get, 4 markDirty, 5 markClean, 6/7 markDirty with an LSN older than / equal to the page's stamp
 	key  int
 }
 
 func (o c15Op) String() string {
-	return fmt.Sprintf("%s(%d)", [...]string{"setClean", "setDirty", "setSame", "get", "markDirty", "markClean"}[o.kind], o.key)
+	return fmt.Sprintf("%s(%d)", c15OpNames[o.kind], o.key)
 }
 
 type c15Ent struct {
@@ -188,18 +190,27 @@ func c15Apply(lru *LRUCache, m *c15Model, op c15Op) (applicable bool, problem st
 		if gok != wok || gn != wn {
 			return true, fmt.Sprintf("get(%d) = (%p,%v), reference (%p,%v)", op.key, gn, gok, wn, wok)
 		}
-	case 4, 5:
+	case 4, 5, 6, 7:
 		n := resident(op.key)
 		if n == nil {
 			return false, ""
 		}
-		if (op.kind == 4) == n.dirty {
+		if (op.kind != 5) == n.dirty {
 			return false, "" // no state change; skip
 		}
-		if op.kind == 4 {
-			n.markDirty(1)
-		} else {
+		switch op.kind {
+		case 4:
+			n.markDirty(n.lastLSN + 1)
+		case 6, 7:
+			// the page carries a stamp from an earlier life (read from disk, or stamped ahead of a counter that
+			// recovery set back); a change with an LSN that is not newer is still a change
+			n.lastLSN = 5
+			n.markDirty(map[int]uint64{6: 1, 7: 5}[op.kind])
+		case 5:
 			n.markClean()
+		}
+		if op.kind != 5 && !n.dirty {
+			return true, fmt.Sprintf("page %d was marked as modified but is not dirty: it can be evicted, and the flush skips it, with the change unsaved", op.key)
 		}
 	}
 	// full structural comparison with the model
@@ -251,8 +262,8 @@ func runC15(env *lib.Env, rep *lib.Report) {
 		var path []c15Op
 		for _, s := range rf.Trace {
 			var o c15Op
-			for k, nm := range []string{"setClean", "setDirty", "setSame", "get", "markDirty", "markClean"} {
-				if strings.HasPrefix(s, nm+"(") {
+			for k, nm := range c15OpNames {
+				if strings.HasPrefix(s, nm+"(") && (o.kind == 0 || len(nm) > len(c15OpNames[o.kind])) {
 					o.kind = k
 					fmt.Sscanf(s[len(nm):], "(%d)", &o.key)
 				}
@@ -278,10 +289,17 @@ func runC15(env *lib.Env, rep *lib.Report) {
 			lookDepth = 2
 		}
 		outcomes := map[string]bool{}
+		cut := false
 		for len(frontier) > 0 {
+			if env.Expired() {
+				rep.Exhaustive = false
+				rep.Notes = append(rep.Notes, fmt.Sprintf("soft deadline reached inside scope capacity %d / %d keys after %d states; the smaller scopes were completed", sc.cap, sc.keys, states))
+				cut = true
+				break
+			}
 			path := frontier[0]
 			frontier = frontier[1:]
-			for kind := 0; kind < 6; kind++ {
+			for kind := 0; kind < len(c15OpNames); kind++ {
 				for k := 0; k < sc.keys; k++ {
 					op := c15Op{kind, k}
 					lru, m, p := c15Replay(sc.cap, path)
@@ -306,6 +324,11 @@ func runC15(env *lib.Env, rep *lib.Report) {
 						rep.AddFailure(&lib.Failure{Kind: "lru-model-mismatch", Detail: fmt.Sprintf("capacity %d, keys %d, after %v: %s", sc.cap, sc.keys, np, p),
 							Trace: tr, Params: fmt.Sprintf("cap=%d keys=%d", sc.cap, sc.keys)})
 						continue // do not explore beyond a broken state
+					}
+					if kind >= 6 {
+						// markDirty with an older / equal LSN is a probe: it has just been checked to set the
+						// dirty flag, after which it is the same step as markDirty (kind 4), which is expanded
+						continue
 					}
 					if _, ok := seen[key]; ok && len(np) > len(seen[key]) {
 						// A different (longer) path into an already known canonical state. The search does
@@ -357,6 +380,10 @@ func runC15(env *lib.Env, rep *lib.Report) {
 		}
 		rep.States += states
 		rep.Transitions += trans
+		if cut {
+			rep.Transitions += lookahead
+			continue
+		}
 		rep.Tags[fmt.Sprintf("scope-%d-%d-fixpoint", sc.cap, sc.keys)]++
 		rep.Notes = append(rep.Notes, fmt.Sprintf("capacity %d, %d keys: %d states, %d transitions, fixpoint reached; %d lookahead steps (depth %d) from non-shortest paths into known states (abstraction check)", sc.cap, sc.keys, states, trans, lookahead, lookDepth))
 		rep.Transitions += lookahead
